@@ -1097,8 +1097,15 @@ impl ValueTable {
 			log.read(&mut buf[SIZE_SIZE..entry_size])?;
 			log::trace!(target: "parity-db", "{}: Validated multipart in slot {}", self.id, index);
 		} else {
-			// TODO: check len
 			let (len, _compressed) = buf.read_size();
+			if SIZE_SIZE + len as usize > self.entry_size as usize {
+				// The record is read before its checksum is known: a damaged size must not
+				// run past the entry (and the buffer).
+				return Err(crate::error::Error::Corruption(format!(
+					"Bad log entry size {len} for {}",
+					self.id
+				)))
+			}
 			log.read(&mut buf[SIZE_SIZE..SIZE_SIZE + len as usize])?;
 			log::trace!(target: "parity-db", "{}: Validated {}: {}, {} bytes", self.id, index, hex(&buf[SIZE_SIZE..32]), len);
 		}
